@@ -234,6 +234,27 @@ def main(args):
                     recs.append(rec)
                     real[rid] = {"draft": d, "schema": S, "instance": repr(inst), "observed": rec["obs"], "crashes": crashes(rec["obs"])}
                     ck.count((d, repr(S), "exotic"), True)
+    # every format name this installation registers x strings chosen to upset parsers (with a format checker the keyword
+    # may only ever report an error; the verdict itself is C13's)
+    patho = ["9999999999:00:00", "99999999999999999999:1:1", "1:2", "00:00:60", "a{99999999999}", "(" * 600, "\x00", "::1\x00", "1.2.3.4\n",
+             "9" * 5000 + "-01-01", "0000-00-00", "#" * 40, "http://[", "a@b@c", "\u0661\u0662:\u0663\u0660:\u0660\u0660", "%"]
+    for d in DRAFTS:
+        names = sorted(set(_JS.FormatChecker.checkers) | set(getattr(_JS, "draft%d_format_checker" % d).checkers))
+        for name in names:
+            S = {"format": name}
+            if not accepted(d, S):
+                continue
+            vals = {}
+            for inst in patho:
+                rid += 1
+                try:
+                    rec = {"id": rid, "kind": "outcome", "d": d, "S": enc(S), "I": enc(inst), "base": [], "uselib": False,
+                           "pats": [], "obs": observe(d, S, inst, vals)}
+                except Unencodable:
+                    continue
+                recs.append(rec)
+                real[rid] = {"draft": d, "schema": S, "instance": repr(inst)[:80], "observed": rec["obs"], "crashes": crashes(rec["obs"])}
+                ck.count((d, name, repr(inst)[:40], "format"), True)
     bad, states = tlc.validate_trace("trace/Trace_Outcome.tla", recs, "c03", shards=16, env={"LIB_FILE": lib})
     tlc.cleanup("c03lib")
     ck.states += states
